@@ -11,6 +11,7 @@
 import AttrsModel.Proofs.C14Final
 import AttrsModel.Proofs.C14Inherit
 import AttrsModel.Proofs.SrcFuncs
+import AttrsModel.Proofs.SrcWrap
 
 namespace Attrs.C14
 
@@ -598,5 +599,25 @@ example : ∃ ext : Py.Ext, ∀ d, ext "_has_own_attribute" [Py.vObj 7, Py.vStr 
 theorem C14_source_whether_to_implement_total (env : Py.Env) (ext : Py.Ext) (cls flag ad ds dflt : Py.PV) :
     ∃ v, Gen.determine_whether_to_implement env ext cls flag ad ds dflt = .ok v :=
   Src.whether_to_implement_total env ext cls flag ad ds dflt
+
+/-- **C14_source_wrap_methods**: the body of `attrs(...).wrap` translated from the current source calls
+    `add_repr`, `add_str`, `add_init` / `add_attrs_init`, `add_match_args` exactly as the declarative table
+    `Src.wrapModel` says (flag obeyed; unset flag + auto_detect + own method ⇒ not generated; `__attrs_init__` iff no
+    `__init__` is generated; `__match_args__` iff `match_args` and no own one) — for every repr/init ∈ {None, True,
+    False}, str, own `__repr__`/`__init__`/`__match_args__`, auto_detect, match_args, Python ≥ 3.10 (2 048 rows). -/
+theorem C14_source_wrap_methods : ∀ (rs rv orr st is iv oi ad ma om p10 : Bool),
+    Src.srcWrap (Src.sliceMethods rs rv orr st is iv oi ad ma om p10) =
+      Src.wrapModel (Src.sliceMethods rs rv orr st is iv oi ad ma om p10) :=
+  Src.wrap_slice_methods
+
+/-- **C14_source_wrap_state**: … and hands `_ClassBuilder` the getstate/setstate decision of the table (flag, else
+    own `__getstate__`/`__setstate__` under auto_detect, else `slots or inherits a generated pair`), the frozen-ness
+    (own or inherited) and the own-`__setattr__` fact, and raises ValueError for an own `__setattr__` on a frozen
+    class — for every getstate_setstate ∈ {None, True, False}, slots, inherited pair, own methods, auto_detect,
+    frozen, frozen base, cache_hash (2 048 rows). -/
+theorem C14_source_wrap_state : ∀ (gss gsv sl ig og os ad osa fz fb ch : Bool),
+    Src.srcWrap (Src.sliceState gss gsv sl ig og os ad osa fz fb ch) =
+      Src.wrapModel (Src.sliceState gss gsv sl ig og os ad osa fz fb ch) :=
+  Src.wrap_slice_state
 
 end Attrs.C14
